@@ -60,7 +60,7 @@ PROPS.update({
     'C11': _e2e(['age', 'mix'], ['C11'], ['outcome', 'cache_status', 'age', 'ncalls']),
     'C12': _e2e(['spell'], ['C01', 'C02', 'C06', 'C09', 'C13', 'C18'], ['outcome', 'calls', 'cache_status', 'age', 'store']),
     'C13': _e2e(['sie', 'mix'], ['C13'], ['outcome', 'calls', 'cache_status', 'age']),
-    'C19': dict(engines=['e2e'], e2e=[dict(profile='repeat', n_quick=150, n_thorough=2000), dict(profile='vary', n_quick=800, n_thorough=8000)],
+    'C19': dict(engines=['e2e'], e2e=[dict(profile='repeat', n_quick=200, n_thorough=3000), dict(profile='vary', n_quick=800, n_thorough=8000)],
                 monitors=['C19'], projection=['store'], rule=E2E_RULE, assumptions=[]),
 })
 
